@@ -8,7 +8,7 @@ from .cfg import CFG, Node, assume
 from .dataflow import Reaching, local_defs, own_nodes, own_statements, params_of, resolve_values, root_name
 from .match import text
 from .report import Report
-from .source import AnalysisError, ClassInfo, Project, dotted
+from .source import AnalysisError, ClassInfo, Project, dotted, parent
 
 CLIENT = "ofxtools.Client"
 NET_MODULES = ("urllib", "requests", "socket", "http.client", "httplib", "ftplib", "smtplib", "ssl", "aiohttp", "httpx", "urllib3")
@@ -46,9 +46,29 @@ def net_aliases(p: Project, modname=CLIENT) -> Dict[str, str]:
     return out
 
 
-def sink_calls(fn, aliases: Dict[str, str]) -> List[ast.Call]:
+def net_attributes(ci: ClassInfo, aliases: Dict[str, str]) -> Dict[str, List[ast.Assign]]:
+    """attributes (of self / the class) that hold an object built by a network constructor, with the
+    assignments that put it there"""
+    out: Dict[str, List[ast.Assign]] = {}
+    for node in ast.walk(ci.node):
+        if isinstance(node, (ast.Assign, ast.AnnAssign)) and node.value is not None:
+            v = node.value
+            if isinstance(v, ast.Call):
+                last = v.func.attr if isinstance(v.func, ast.Attribute) else (v.func.id if isinstance(v.func, ast.Name) else None)
+                if root_name(v) in aliases and last in CONSTRUCTORS:
+                    tgts = node.targets if isinstance(node, ast.Assign) else [node.target]
+                    for t in tgts:
+                        if isinstance(t, ast.Attribute):
+                            out.setdefault(t.attr, []).append(node)
+                        elif isinstance(t, ast.Name) and isinstance(parent(node), ast.ClassDef):
+                            out.setdefault(t.id, []).append(node)
+    return out
+
+
+def sink_calls(fn, aliases: Dict[str, str], netattrs=()) -> List[ast.Call]:
     """calls in fn's own body that can perform network I/O: a call rooted at a network-module alias
-    (other than the pure constructors), or a method call on a local object built from one"""
+    (other than the pure constructors), or a method call on a local object (or an attribute of self /
+    the class) built from one"""
     defs = local_defs(fn)
     netobjs: Set[str] = set()
     changed = True
@@ -83,6 +103,8 @@ def sink_calls(fn, aliases: Dict[str, str]) -> List[ast.Call]:
             if last in PURE_ATTRS:
                 continue
             out.append(n)
+        elif isinstance(f, ast.Attribute) and isinstance(f.value, ast.Attribute) and f.value.attr in netattrs and last not in PURE_ATTRS:
+            out.append(n)
     return out
 
 
@@ -99,9 +121,10 @@ def n_r1_sinks(p: Project, rep: Report):
         raise AnalysisError("N-R1: Client.py imports no network module - transport not recognised")
     nfn = 0
     total_sinks = 0
+    nattrs = net_attributes(client_class(p), aliases)
     for qn, cls, fn in m.functions():
         nfn += 1
-        sinks = sink_calls(fn, aliases)
+        sinks = sink_calls(fn, aliases, nattrs)
         if qn == "OFXClient.post_request":
             total_sinks += len(sinks)
             continue
@@ -307,7 +330,7 @@ def n_r4_post(p: Project, rep: Report):
     if fn is None:
         raise AnalysisError("OFXClient.post_request not found")
     aliases = net_aliases(p)
-    sinks = sink_calls(fn, aliases)
+    sinks = sink_calls(fn, aliases, net_attributes(ci, aliases))
     cfg = CFG(fn)
     reach = Reaching(cfg)
     snodes = []
@@ -542,7 +565,14 @@ def n_r8_cookies(p: Project, rep: Report):
     aliases = net_aliases(p)
     pcfg = CFG(fn)
     flt = assume({"self.persist_cookies": True})
-    for s in sink_calls(fn, aliases):
+    nattrs = net_attributes(ci, aliases)
+    for attr, assigns in nattrs.items():
+        for a in assigns:
+            tgts = a.targets if isinstance(a, ast.Assign) else [a.target]
+            for t in tgts:
+                per_instance = isinstance(t, ast.Attribute) and text(t.value) == "self"
+                rep.check("N-R8", f"network-object:{text(t)}:per-instance", per_instance, f"the opener/session built by {text(a.value.func)} is stored on {text(t)} - shared by every OFXClient instance: it carries the first client's cookie jar, so later clients send that client's cookies and never fill their own jar" if not per_instance else "", loc(p, a))
+    for s in sink_calls(fn, aliases, nattrs):
         node = [n for n in pcfg.nodes if any(c is s for c in n.calls())][0]
         # the object the call is made on
         recv = root_name(s.func)
